@@ -19,7 +19,7 @@ ABS_LINES = ["An abstract", "second line", "trailing words", "x", "ends in back\
 def gen_path(rng, targets, kind=None):
     kind = kind or rng.choice(["here", "here", "tilde", "abs", "url", "rel"])
     if kind == "here" and targets:
-        return "./" + rng.choice(targets)
+        return "./" + rng.choice(targets) + rng.choice(["", "", "", "/"])
     if kind == "tilde" and targets:
         return "~/" + rng.choice(targets)
     if kind == "url":
@@ -69,10 +69,22 @@ def gen_block(rng, targets, override=None):
         out = [(k, v) for k, v in out if k not in drop]
     rng.shuffle(out)
     comments = [rng.choice(["# a comment", "#", "#Name=not a field"]) for _ in range(rng.choice([0, 0, 0, 1, 2]))]
-    return {"comments": comments, "fields": out}
+    b = {"comments": comments, "fields": out}
+    style = rng.random()
+    if style < 0.15:
+        b["indent"] = " "                       # as printed in the manual
+    elif style < 0.25:
+        b["indent"] = rng.choice(["\t", "    ", " \t "])
+    elif style < 0.35:
+        b["indent"] = [rng.choice(["", " ", "\t", "  "]) for _ in range(5)]
+    if rng.random() < 0.15:
+        b["trail"] = [rng.choice(["", " ", "\t", "  "]) for _ in range(4)]
+    return b
 
 
 def render_block(b, nl="\n"):
+    """Lines may be indented and may carry trailing blanks (the manual prints its examples indented):
+    b["indent"] / b["trail"] are strings, or lists cycled over the lines."""
     lines = list(b["comments"])
     for k, v in b["fields"]:
         if k == "Abstract":
@@ -80,7 +92,12 @@ def render_block(b, nl="\n"):
                 lines.append(("Abstract=" if i == 0 else "") + l + ("\\" if i < len(v) - 1 else ""))
         else:
             lines.append("%s=%s" % (k, v))
-    return "".join(l + nl for l in lines)
+
+    def pick(x, i):
+        if not x:
+            return ""
+        return x if isinstance(x, str) else x[i % len(x)]
+    return "".join(pick(b.get("indent"), i) + l + pick(b.get("trail"), i) + nl for i, l in enumerate(lines))
 
 
 def render_linkfile(blocks, nl="\n"):
@@ -159,7 +176,8 @@ def spec_apply(entries, base, blocks, hidden=None):
         s = spec_entry(base, b)
         if s["override"] and s["selector"] in hidden:
             continue            # hidden stays hidden, whatever later blocks say about the same file
-        tgt = [e for e in out if e["selector"] == s["selector"]] if s["override"] else []
+        # ./name addresses the FILE of this directory, never a link that happens to share its selector
+        tgt = [e for e in out if e.get("dir") and e["selector"] == s["selector"]] if s["override"] else []
         if s["override"] and tgt:
             e = tgt[0]
             if s["type"] in ("X", "-"):
@@ -169,10 +187,11 @@ def spec_apply(entries, base, blocks, hidden=None):
             for k in ("type", "name", "num", "abstract"):
                 if s[k] is not None:
                     e[k] = s[k]
-            if "Host" in s["fields"]:
-                e["host"] = s["host"]
-            if "Port" in s["fields"]:
-                e["port"] = s["port"]
+            # Host=+ / Port=+ (like no such line): the block gives the entry no host / port of its own, so an
+            # override leaves what the entry has (UMNSpec.spec_lentry reads it the same way)
+            for k in ("host", "port"):
+                if s[k] is not None:
+                    e[k] = s[k]
         elif s["override"] and s["type"] in ("X", "-"):
             continue        # nothing there (any more) to hide
         else:
@@ -189,13 +208,13 @@ def spec_order(entries):
     return sorted(entries, key=spec_key)
 
 
-def spec_menu(entries, host="gopher.example", port=70, gplus_selectors=()):
+def spec_menu(entries, host="gopher.example", port=70):
     out = []
     for e in entries:
         line = "%s%s\t%s\t%s\t%d" % (e["type"] or "0", e["name"], e["selector"], e["host"] or host,
                                      e["port"] if e["port"] is not None else port)
-        if e["selector"] in gplus_selectors:
-            line += "\t+"
+        if e.get("dir"):
+            line += "\t+"          # the directory's own entries support Gopher+
         out.append(line + "\r\n")
         if e["abstract"]:
             for l in e["abstract"].splitlines():
